@@ -603,6 +603,43 @@ def r13_10(ctx):
     ctx.floor("R13.10", n_ops, 15, "subtractions / comparisons between clock readings")
 
 
+def r13_11(ctx):
+    """While a mailbox is a \\Noselect placeholder its resync is skipped, but the poll still records the folder's current
+    modification time.  A delivery into the (still existing) folder is therefore already `known` by mtime when CREATE brings
+    the name back: only a *forced* resync (`optional=False`) in that branch of Mailbox.create() scans the folder and gives
+    the delivered messages UIDs, \\Recent and their announcements."""
+    p = ctx.p
+    fi = p.func("mbox.Mailbox.create")
+    ctx.analysed(fi)
+    par = parmap(fi)
+    n = 0
+    for c in calls_in(fi.node):
+        if call_name(c) != "check_new_msgs_and_flags":
+            continue
+        cur, under = c, False
+        while cur in par:
+            cur = par[cur]
+            if isinstance(cur, ast.If) and "Noselect" in norm(cur.test):
+                under = True
+            # (the other spelling: `if "\\Noselect" not in attrs: raise MailboxExists` followed by the revive code)
+            up_ = par.get(cur)
+            for fld in ("body", "orelse", "finalbody"):
+                lst = getattr(up_, fld, None)
+                if isinstance(lst, list) and cur in lst:
+                    for prev in lst[: lst.index(cur)]:
+                        if isinstance(prev, ast.If) and "Noselect" in norm(prev.test) and prev.body and isinstance(prev.body[-1], (ast.Raise, ast.Return)):
+                            under = True
+        if not under:
+            continue
+        n += 1
+        opt = kwarg(c, "optional") or (c.args[0] if c.args else None)
+        if isinstance(opt, ast.Constant) and opt.value is False:
+            ctx.ok("R13.11", where(fi), "CREATE of a \\Noselect placeholder resyncs with optional=False")
+        else:
+            ctx.bad("R13.11", fi.module, fi.qual, norm(c, 70), "CREATE revives a \\Noselect mailbox with an *optional* resync: the poll has kept its mtime current while it was skipped, so messages delivered meanwhile are `not new` - they get no UIDs, no \\Recent, no announcement and SELECT reports the count from before the DELETE", c.lineno)
+    ctx.floor("R13.11", n, 1, "resyncs in the revive branch of Mailbox.create()")
+
+
 def run(ctx):
     ctx.do(r13_1)
     ctx.do(r13_2)
@@ -614,6 +651,7 @@ def run(ctx):
     ctx.do(r13_8)
     ctx.do(r13_9)
     ctx.do(r13_10)
+    ctx.do(r13_11)
     from . import c10
     ctx.do(c10.r10_7)
     from . import c02 as _c02
